@@ -71,7 +71,7 @@ static Outcome drive(const uint8_t *in, const unsigned n, const uint8_t *cuts, c
 
 // runs check(cuts, ncuts) for the one-shot delivery, every split point (thorough: every pair of split points of inputs
 // of at most PAIRMAX bytes) and byte-by-byte delivery
-#define PAIRMAX 16
+#define PAIRMAX 12
 template <class F> static void forAllSegmentations(const unsigned n, F check)
 {
     uint8_t cuts[MAXIN];
@@ -216,19 +216,17 @@ static void sameAsReference(const Outcome &got, const Outcome &want)
     if (want.st == DONE) vf_assert(got.consumed == want.consumed, "consumed exactly the encoded bytes");
 }
 
-static int relaxedSetting()
+// Config.onoff.relaxed_header_parser: 0 = off, 1 = on (the default); -1 = on with warnings (differs from 1 only in the debugs()
+// level, so it is included in one thorough entry only)
+static int relaxedSetting(const bool withWarnMode = false)
 {
-    // Config.onoff.relaxed_header_parser: 0 = off, 1 = on (the default), -1 = on with warnings (thorough only)
-#ifdef VF_THOROUGH
-    return (int)vf_concretize(vf_range(0, 2, "relaxed")) - 1;
-#else
-    return (int)vf_concretize(vf_range(0, 1, "relaxed"));
-#endif
+    return withWarnMode ? (int)vf_concretize(vf_range(0, 2, "relaxed")) - 1 : (int)vf_concretize(vf_range(0, 1, "relaxed"));
 }
 
-static void grammar(const uint8_t *in, const unsigned n, const unsigned cap, const bool defaultConfigOnly = false)
+enum ConfigModes { cmDefault, cmBoth, cmAll }; // relaxed_header_parser = 1 / in {0,1} / in {-1,0,1}
+static void grammar(const uint8_t *in, const unsigned n, const unsigned cap, const ConfigModes modes = cmBoth)
 {
-    const int relaxed = defaultConfigOnly ? 1 : relaxedSetting();
+    const int relaxed = modes == cmDefault ? 1 : relaxedSetting(modes == cmAll);
     http1Config(relaxed, 65536, 65536);
     const Outcome want = reference(in, n, relaxed != 0);
     // KNOWN-FINDING candidate: "1;a=A \t\r\n..." (SP/HTAB after a complete chunk-ext, then CRLF): the one-shot parse throws
@@ -259,16 +257,17 @@ static uint8_t sizeByte()
     const uint8_t c = vf_nondet_u8("b");
     return hexVal(c) >= 0 ? (uint8_t)vf_concretize(c) : c;
 }
-static void families(const Tmpl *t, const unsigned count)
+static void families(const Tmpl *t, const unsigned count, const ConfigModes modes = cmBoth)
 {
     const Tmpl &f = t[count > 1 ? vf_concretize(vf_range(0, count - 1, "family")) : 0];
     const unsigned cap = f.twoLimits && vf_concretize(vf_range(0, 1, "cap")) ? 3 : 1;
     uint8_t in[MAXIN];
     for (unsigned i = 0; i < f.n; ++i)
         in[i] = f.s[i] == '\x01' ? vf_nondet_u8("b") : f.s[i] == '\x02' ? sizeByte() : (uint8_t)f.s[i];
-    grammar(in, f.n, cap);
+    grammar(in, f.n, cap, modes);
 }
-#define GRAMMAR(fn, ...) extern "C" void fn(void) { static const Tmpl t[] = {__VA_ARGS__}; families(t, sizeof(t) / sizeof(*t)); }
+#define GRAMMAR_M(fn, modes, ...) extern "C" void fn(void) { static const Tmpl t[] = {__VA_ARGS__}; families(t, sizeof(t) / sizeof(*t), modes); }
+#define GRAMMAR(fn, ...) GRAMMAR_M(fn, cmBoth, __VA_ARGS__)
 
 // ---- chunk-size line, one unconstrained byte at a time: first digit; after a leading 0 (0x/0X); after the digits (more
 // digits, BWS, ";", CR); the CR; first byte of the second chunk-size line
@@ -277,7 +276,12 @@ GRAMMAR(c24_g_size,
         T("1\r\nX\r\n\x02\r\n\r\n"))
 // ---- chunk-ext: list after the ";", value (token or quoted-string), inside a quoted-string (qdtext, quoted-pair, closing
 // quote), the BWS positions inside an extension (the one after the chunk-size is in c24_g_size)
-GRAMMAR(c24_g_ext,
+#ifdef VF_THOROUGH
+#define EXT_MODES cmAll
+#else
+#define EXT_MODES cmBoth
+#endif
+GRAMMAR_M(c24_g_ext, EXT_MODES,
         T("1;\x01\x01\x01\r\nX\r\n0\r\n\r\n"), T("1;a=\x01\x01\x01\r\nX\r\n0\r\n\r\n"), T("1;a=\"\x01\x01\x01\"\r\nX\r\n0\r\n\r\n"),
         T("1;\x01" "a\x01=\x01v\r\nX\r\n0\r\n\r\n"))
 // ---- CRLF after chunk-data; after the last-chunk size; trailer-section and final CRLF
@@ -288,12 +292,11 @@ GRAMMAR(c24_g_end,
 GRAMMAR(c24_g_big,
         T("\x01" "fffffffffffffff\x01\r\nX"), T("7fffffffffffff\x01\x01\r\nX"))
 #ifdef VF_THOROUGH
-// two bytes of a chunk-size field at once (first line, second line, around the CRLFs of a chunk)
-GRAMMAR(c24_g_size2, T2("\x02\x02\r\nab\r\n0\r\n\r\n"), T2("0\x02\x02\r\nab\r\n0\r\n\r\n"))
-GRAMMAR(c24_g_next2, T("1\r\nX\r\n\x02\x02\r\n\r\n"), T("1\x02;\x01" "a\x01=\x01v\r\nX\r\n0\r\n\r\n"))
-GRAMMAR(c24_g_crlf, T2("2\x02\x02XY\x01\x01" "0\r\n\r\n"))
-GRAMMAR(c24_g_ext4, T("1;\x01\x01\x01\x01\r\nX\r\n0\r\n\r\n"))
-GRAMMAR(c24_g_quoted4, T("1;a=\"\x01\x01\x01\x01\r\nX\r\n0\r\n\r\n"))
+// two bytes of a chunk-size line at once: first line, second line
+GRAMMAR_M(c24_g_size2, cmDefault, T("\x02\x02\r\nab\r\n0\r\n\r\n"))
+GRAMMAR_M(c24_g_next2, cmDefault, T("1\r\nX\r\n\x02\x02\r\n\r\n"))
+GRAMMAR_M(c24_g_ext4, cmDefault, T("1;\x01\x01\x01\x01\r\nX\r\n0\r\n\r\n"))
+GRAMMAR_M(c24_g_quoted4, cmDefault, T("1;a=\"\x01\x01\x01\x01\r\nX\r\n0\r\n\r\n"))
 GRAMMAR(c24_g_end4, T("1\r\nX\r\n0\r\n\x01\x01\x01\x01"), T("7fffffffffffff\x01\x01\x01\nX"))
 #endif
 
@@ -304,9 +307,9 @@ extern "C" void c24_any(void)
     uint8_t in[NANY + 1];
     for (unsigned i = 0; i < n; ++i) in[i] = sizeByte();
 #ifdef VF_THOROUGH
-    grammar(in, n, 1);
+    grammar(in, n, 1, cmBoth);
 #else
-    grammar(in, n, 1, true); // quick: relaxed_header_parser = 1 (the default) only
+    grammar(in, n, 1, cmDefault);
 #endif
 }
 
